@@ -221,7 +221,7 @@ def run(tier, seed):
     run = Run("C17", tier, seed, "exploration", floor=100)
     run.rule = ("every named quantity and every dimensionality occurring among the database's units, each written as quantity "
                 "name, as a unit of that dimensionality and as an explicit base-unit product, plus random base-unit products "
-                "with exponents -3..3; `units for` compared as a set with the non-alias units of that dimensionality from the "
+                "with exponents -3..3 and with exponents 25..1000 (beyond factorize's 50-factor limit); `units for` compared as a set with the non-alias units of that dimensionality from the "
                 "registry (and their own categories), `factorize` multiplied out with the dimension algebra; non-trivial = "
                 "distinct dimensionality queried")
     run.assumptions = ["alias = definition is a bare unit name; a unit's own category is registry.categories[name]",
@@ -244,6 +244,20 @@ def run(tier, seed):
         for b in rng.sample(bases, rng.randrange(1, 4 if tier == "quick" else 6)):
             d[b] = rng.choice([-3, -2, -1, 1, 2, 3])
         extra.add(dims_key(d))
+    # dimensionalities that cannot be a product of few named quantities (exponents 25..1000): factorize's depth limit and
+    # memo are reached; whatever it lists must still multiply out (seeded change C17_d reported truncated products)
+    big = set()
+    nbig = 40 if tier == "quick" else 1500
+    big_exps = [25, 49, 50, 51, 60, 75, 99, 100, 101, 150, 151, 200, 400, 777, 1000]
+    attempts = 0
+    while len(big) < nbig and attempts < nbig * 20:
+        attempts += 1
+        d = {}
+        for b in rng.sample(bases, rng.choice([1, 1, 2, 3])):
+            d[b] = rng.choice(big_exps) * rng.choice([1, 1, -1])
+        big.add(dims_key(d))
+    run.extra_cov["large_exponent_dimensionalities"] = len(big)
+    extra |= big
     jobs = sorted(dks) + sorted(extra - dks)
     run.exhaustive = True
     rng.shuffle(jobs)
